@@ -1,9 +1,11 @@
 package main
 
 import (
+	"fmt"
 	"go/ast"
 	"go/token"
 	"go/types"
+	"os"
 )
 
 // E6 helper: flow-insensitive, intra-procedural "may depend on" relation between the local
@@ -205,4 +207,15 @@ func (d *lfDeps) Aliases(e ast.Expr, visit func(x ast.Expr)) {
 		}
 	}
 	walk(e)
+}
+
+// dumpObsIfAsked prints every obligation recorded so far when VCHK_DUMP is set (development aid; evidence files keep
+// only a sample of the discharged obligations).
+func dumpObsIfAsked(c *Ctx) {
+	if os.Getenv("VCHK_DUMP") == "" || c.fixtureMode {
+		return
+	}
+	for _, o := range c.Obs {
+		fmt.Printf("OBS %s %s %s %s\n", o.Rule, o.Status, o.Key, o.Pos)
+	}
 }
